@@ -103,7 +103,7 @@ func checkC14(c *Ctx) (int, error) {
 	c.ev.Extra["max_destination_calls_in_a_history"] = maxN
 	c.ev.Rule = fmt.Sprintf("every history of %d calls over {Write(small|large), Flush, Close} (TLC, WriterModel) on %d of %d settings; for each, one case per destination call index k = 1..N+1 (the k-th call fails with a fresh error value, every second one after accepting half of its bytes) and the fault-free run; distinct by (history, setting, k)", maxLen, per, len(allWSettings))
 	c.ev.Exhaustive = true
-	for _, cs := range cases[:minInt(3, len(cases))] {
+	for _, cs := range spread(cases) {
 		c.ev.sample(map[string]interface{}{"history": histString(cs.Ops), "setting": cs.Tag, "failat": cs.FailAt})
 	}
 	return c.writerRun("c14", c.spreadArch(cases, false), true)
@@ -176,7 +176,7 @@ func checkC19(c *Ctx) (int, error) {
 		}
 	}
 	c.ev.Rule = fmt.Sprintf("Write/Flush partitions from TLC (PartitionGen, %d units) over inputs of 64-135 KiB that repeat with period W-2..W+2, 2W, 32767..32769 (W = 4096 / 32768) or are mixed/text/token-dense, on the 4 KiB constructor at levels 1,2,-1,5,9,-2 and the ordinary constructor at 1,2,-1, at every acceleration level; every event's maximal distance is judged; distinct by (ops, setting, period)", u)
-	for _, cs := range cases[:minInt(3, len(cases))] {
+	for _, cs := range spread(cases) {
 		c.ev.sample(map[string]interface{}{"history": histString(cs.Ops), "setting": cs.Tag, "data": cs.Data})
 	}
 	return c.writerRun("c19", c.spreadArch(cases, true), false)
@@ -258,7 +258,7 @@ func checkC20(c *Ctx) (int, error) {
 		}
 	}
 	c.ev.Rule = "accelerated settings (levels -2,-1,1,2 x 32K/4K window) x data classes {uniform, flattest histogram, Fibonacci-skewed, token-dense, sparse, 8-letter, one value just over 1/2 resp. 1/4 of the input} x sizes {0,1,2,100,4096,65535..65537,131072,200000,262144 (thorough: up to 3 MiB)}, and periods 1..64 x {65536, 100000 (thorough: 1 MiB)} for levels 1,2,-1, one or several Writes then Close, at every acceleration level; distinct by (setting, class, size, period)"
-	for _, cs := range cases[:minInt(3, len(cases))] {
+	for _, cs := range spread(cases) {
 		c.ev.sample(map[string]interface{}{"history": histString(cs.Ops), "setting": cs.Tag, "data": cs.Data})
 	}
 	return c.writerRun("c20", c.spreadArch(cases, true), false)
